@@ -63,6 +63,22 @@ CHECKS = {
    technique="implementation-shaped TLA+ model of the three-message handshake with a Dolev-Yao attacker (Handshake.tla), safety + liveness under fairness model checked; every attacker schedule replayed on two real AuthenticationBuiltin plugins; byte-level sweep of all fields; TLC trace validation",
    text="TLC explores every attacker schedule with <=3 (4) attacker deliveries (alter, forge, replay from an earlier session, reflect, reorder) and checks: completion only through clean copies, equal secrets, no secret before completion, genuine handshake completes afterwards (modulo the three named deviations); all 1679 behaviours plus a sweep flipping every byte of every field of the three messages, foreign-CA / insider / unbound-GUID certificates and random schedules run on two real plugins with fixture identities, get_shared_secret read after every call, validated by Trace_Handshake.tla.",
    note="EC identities / ECDH only; certificate expiry and revocation not exercised; known findings S7, S13, S14"),
+ "C11": dict(level="exploration", engine="tlc+disc-driver", design="§4 C11",
+   technique="abstract discovery state in TLA+ (DiscoveryAbs.tla) with named deviation S8; discovery event sequences applied to a real DiscoveryDB + real DPEventLoop handlers + real local Writer/Reader; TLC trace validation of matched sets and status events (Trace_Discovery.tla)",
+   text="Random and systematic sequences of SPDP announce / liveness / clean-up / participant dispose and SEDP announce / re-announce / dispose over two remote participants and six remote endpoints (compatible, incompatible, other topic) are applied the way discovery.rs applies them; after every event the matched sets of the real local Writer and Reader, their PublicationMatched / SubscriptionMatched / IncompatibleQos events (current, change, total) and the DiscoveryDB tables are judged: matched = announced, compatible, same topic; one event per set change with the right current count; total never decreases; incompatible -> event and no match; a lost participant's endpoints leave together.",
+   note="glue of discovery.rs mirrored in the rig (real glue exercised by the system driver); known finding S8; implementation-shaped model (Discovery.tla) for exhaustive schedules not built yet"),
+ "C12": dict(level="exploration", engine="tlc+disc-driver", design="§4 C12",
+   technique="lease rule in TLA+ (DiscoveryAbs.tla: lost iff no sign for longer than the advertised lease); real DiscoveryDB driven with a virtual clock; TLC trace validation",
+   text="With the virtual clock (cfg-gated offset added to Instant::now() in DiscoveryDB) leases of 0.5 s, 1.5 s, 3.5 s, 10.5 s, 100.5 s and 'none announced' are exercised against ticks of 1 to 101 s, liveness signs, clean-up ticks, explicit disposes and reappearance; TLC judges every clean-up result (live participant never dropped, silent one dropped), immediate removal on dispose, endpoints parked on time-out and known again on reappearance.",
+   note="no event on the exact lease boundary (leases end in .5 s, ticks are whole seconds)"),
+ "C14": dict(level="exploration", engine="tlc+wire-driver", design="§4 C14",
+   technique="framing model RtpsWire.tla (Decode(Encode(m)) = Canon(m) over submessage shapes) and NumberSet.tla (bitmap law) checked with TLC; shapes instantiated with the real serialisers, judged by an independent codec and by TLC trace validation; corpus of captured real datagrams round-tripped",
+   text="TLC checks the framing law over 200 submessage shapes x both byte orders (21 602 messages quick) and the number-set law on 21 189 cases; every shape is built with the crate's structs/MessageBuilder with seeded values, serialised LE/BE, and checked: header length and flags agree with the body (independent codec harness/src/wire.rs), parse back equal, re-serialise to identical bytes; plus every datagram the real Reader/Writer emitted in the reader/writer/link drivers.",
+   note="value equality is differential (the spec is generator and framing oracle); security submessages not covered; known finding X2 (INFO_REPLY)"),
+ "C15": dict(level="exploration", engine="tlc+wire-driver", design="§4 C15",
+   technique="generic parameter-list codec and per-type schema tables in TLA+ (ParamList.tla), round-trip law checked with TLC; cases replayed on the real PL-CDR (de)serialisers with foreign parameters spliced into the byte stream; TLC trace validation",
+   text="TLC checks the round-trip law on 12 185 cases (presence sets x removed parameters x foreign standard/vendor parameters x byte order) for SpdpDiscoveredParticipantData, DiscoveredReaderData, DiscoveredWriterData, DiscoveredTopicData, ParticipantMessageData and QosPolicies; each case is built as the real struct, serialised, spliced, deserialised and compared with the schema's expected record including RTPS defaults.",
+   note="presence combinations: single-field cover plus random; security parameters not covered; known finding Y1"),
 }
 NOT_APPLICABLE = {}
 
